@@ -491,3 +491,275 @@ Proof.
   - intros w r its w' H. destruct F; try discriminate; cbn in H; inversion H; reflexivity.
   - reflexivity.
 Qed.
+
+(* ================================================================ part 3: header / bracket formats.
+   When nothing is ever evicted (pipes; or no more distinct targets than the capacity) every touched target is
+   open, its writer state is the state of ONE writer run over the target's sub-sequence, and its file is that
+   writer's output so far. *)
+Lemma wrun_snoc F w evs e :
+  wrun F w (evs ++ [e]) =
+  match wrun F w evs with
+  | Some (its, w1) =>
+      match e with
+      | ERec r => match w_rec F w1 r with Some (i2, w2) => Some (its ++ i2, w2) | None => None end
+      | EStr s => Some (its ++ [IRaw s], w1)
+      end
+  | None => None
+  end.
+Proof.
+  revert w. induction evs as [|[r|s] evs IH]; intros w; cbn.
+  - destruct e as [r|s]; cbn; [|reflexivity]. destruct (w_rec F w r) as [[i2 w2]|]; [now rewrite app_nil_r|reflexivity].
+  - destruct (w_rec F w r) as [[i1 w1]|]; [|reflexivity]. rewrite IH.
+    destruct (wrun F w1 evs) as [[its w2]|]; [|reflexivity].
+    destruct e as [r'|s']; [destruct (w_rec F w2 r') as [[i3 w3]|]|]; now rewrite ?app_assoc.
+  - rewrite IH. destruct (wrun F w evs) as [[its w2]|]; [|reflexivity].
+    destruct e as [r'|s']; [destruct (w_rec F w2 r') as [[i3 w3]|]|]; reflexivity.
+Qed.
+
+Lemma In_distinct x l : In x (distinct l) <-> In x l.
+Proof. apply nodup_In. Qed.
+
+Definition no_evict (md : mode) (c : nat) (ops : list op) : Prop :=
+  is_pipe md = true \/ len (distinct (targets_of ops)) <= c.
+
+Record sync (md : mode) (F : fmt) (fs0 : fstore) (ops : list op) (m : mgr) : Prop := {
+  s_ev : m_evicted m = [];
+  s_open : forall t, touched t ops = true ->
+           exists its ws, wrun F WFresh (events_of t ops) = Some (its, ws) /\
+                          lookup t (m_open m) = Some ws /\ m_fs m t = base md fs0 t ++ its;
+  s_rest : forall t, touched t ops = false -> m_fs m t = fs0 t
+}.
+
+Lemma targets_snoc ops o : targets_of (ops ++ [o]) = targets_of ops ++ [fst o].
+Proof. unfold targets_of. now rewrite map_app. Qed.
+
+Lemma no_evict_room md c F ops more t m :
+  no_evict md c (ops ++ more) -> In t (targets_of (ops ++ more)) ->
+  book md c ops m -> m_evicted m = [] -> make_room md c F t m = m.
+Proof.
+  intros Hne Hin B Hev.
+  destruct (make_room_view md c F t m) as [E|(rest & tl & wtl & Eo & El & Ep & Ec & E)]; [exact E|].
+  exfalso. destruct Hne as [Hp|Hlen]; [congruence|].
+  apply lookup_none in El.
+  assert (Hnd : NoDup (t :: names (m_open m))) by (constructor; [exact El|apply (b_nodup _ _ _ _ B)]).
+  assert (Hincl : incl (t :: names (m_open m)) (distinct (targets_of (ops ++ more)))).
+  { intros x [<-|Hx]; apply In_distinct; [exact Hin|].
+    unfold targets_of. rewrite map_app. apply in_or_app. left. apply (b_cov _ _ _ _ B). now left. }
+  pose proof (NoDup_incl_length Hnd Hincl) as Hl. cbn in Hl. unfold names in Hl. rewrite map_length in Hl. lia.
+Qed.
+
+Lemma sync_step md c F fs0 ops more o m :
+  no_evict md c (ops ++ o :: more) ->
+  book md c ops m -> sync md F fs0 ops m -> m_err m = false -> m_err (step md c F m o) = false ->
+  sync md F fs0 (ops ++ [o]) (step md c F m o).
+Proof.
+  intros Hne B S He0 He. destruct o as [t e].
+  assert (Hroom : make_room md c F t m = m).
+  { eapply no_evict_room; eauto; [|apply (s_ev _ _ _ _ _ S)].
+    unfold targets_of. rewrite map_app. apply in_or_app. right. now left. }
+  (* what acquire returns when nothing is evicted *)
+  assert (Hacq : acquire md c F t m =
+                 match lookup t (m_open m) with
+                 | Some ws => (ws, drop t (m_open m), [], m_fs m)
+                 | None => (WFresh, m_open m, [], if is_append md then m_fs m else upd t [] (m_fs m))
+                 end).
+  { unfold acquire. rewrite Hroom, (s_ev _ _ _ _ _ S). cbn. destruct (lookup t (m_open m)); [reflexivity|].
+    now rewrite orb_false_r. }
+  (* the handler's state and file before the write *)
+  assert (Hpre : exists its0 ws0 rest fs,
+             acquire md c F t m = (ws0, rest, [], fs) /\
+             wrun F WFresh (events_of t ops) = Some (its0, ws0) /\
+             fs t = base md fs0 t ++ its0 /\
+             (forall x, x <> t -> fs x = m_fs m x /\ lookup x rest = lookup x (m_open m))).
+  { rewrite Hacq. destruct (touched t ops) eqn:Ht.
+    - destruct (s_open _ _ _ _ _ S t Ht) as (its0 & ws0 & Hw & Hl & Hf). rewrite Hl.
+      exists its0, ws0, (drop t (m_open m)), (m_fs m). repeat split; auto. now apply lookup_drop_other.
+    - assert (Hl : lookup t (m_open m) = None).
+      { apply lookup_none. intros Hin. assert (In t (targets_of ops)) by (apply (b_cov _ _ _ _ B); now left).
+        apply touched_iff in H. congruence. }
+      rewrite Hl, (events_untouched _ _ Ht). cbn [wrun].
+      exists [], WFresh, (m_open m), (if is_append md then m_fs m else upd t [] (m_fs m)).
+      repeat split; auto.
+      + unfold base. rewrite app_nil_r. destruct (is_append md); [apply (s_rest _ _ _ _ _ S t Ht)|apply upd_same].
+      + destruct (is_append md); [reflexivity|now apply upd_other]. }
+  destruct Hpre as (its0 & ws0 & rest & fs & Ea & Hw & Hft & Hoth).
+  (* the write itself *)
+  assert (Hst : exists its ws',
+             step md c F m (t, e) = Mgr ((t, ws') :: rest) [] (upd t (fs t ++ its) fs) false /\
+             wrun F WFresh (events_of t ops ++ [e]) = Some (its0 ++ its, ws')).
+  { rewrite wrun_snoc, Hw. destruct e as [r|s]; cbn in He |- *; unfold write_rec, write_str in *; rewrite He0, Ea in *.
+    - destruct (w_rec F ws0 r) as [[its ws']|]; [|cbn in He; discriminate]. eauto.
+    - eauto. }
+  destruct Hst as (its & ws' & Es & Hw'). rewrite Es.
+  split; cbn [m_evicted m_open m_fs]; [reflexivity| |].
+  - intros x Hx. rewrite touched_snoc in Hx. rewrite events_snoc. destruct (beqb_spec x t) as [Ext|Hxt]; [subst x|].
+    + exists (its0 ++ its), ws'. split; [exact Hw'|]. cbn. rewrite beqb_refl. split; [reflexivity|].
+      now rewrite upd_same, Hft, app_assoc.
+    + rewrite orb_false_r in Hx. destruct (s_open _ _ _ _ _ S x Hx) as (i & w & H1 & H2 & H3).
+      exists i, w. rewrite app_nil_r. split; [exact H1|]. cbn. apply beqb_neq in Hxt as Hb. rewrite Hb.
+      destruct (Hoth x Hxt) as [Hf Hl]. rewrite Hl, upd_other, Hf by exact Hxt. auto.
+  - intros x Hx. rewrite touched_snoc in Hx. apply orb_false_iff in Hx. destruct Hx as [Hx Hb].
+    apply beqb_neq in Hb. destruct (Hoth x Hb) as [Hf _]. rewrite upd_other, Hf by exact Hb. apply (s_rest _ _ _ _ _ S x Hx).
+Qed.
+
+Lemma run_sync md c F fs0 ops more :
+  no_evict md c (ops ++ more) -> m_err (run md c F ops fs0) = false -> sync md F fs0 ops (run md c F ops fs0).
+Proof.
+  revert more. induction ops as [|o ops IH] using rev_ind; intros more Hne He.
+  - split; cbn; [reflexivity| |reflexivity]. intros t H. discriminate.
+  - rewrite run_snoc in *. pose proof (err_monotone _ _ _ _ _ He) as He0.
+    rewrite <- app_assoc in Hne. cbn in Hne.
+    eapply sync_step; eauto. apply run_book; exact He0.
+Qed.
+
+Theorem one_document_no_eviction md c F ops fs0 :
+  no_evict md c ops -> m_err (run md c F ops fs0) = false ->
+  forall t, touched t ops = true ->
+  exists d, single_doc F (events_of t ops) = Some d /\ final md c F ops fs0 t = base md fs0 t ++ d.
+Proof.
+  intros Hne He t Ht. rewrite <- (app_nil_r ops) in Hne.
+  pose proof (run_sync md c F fs0 ops [] Hne He) as S.
+  destruct (s_open _ _ _ _ _ S t Ht) as (its & ws & Hw & Hl & Hf).
+  unfold final. rewrite close_all_view by (apply (b_nodup _ _ _ _ (run_book md c F ops fs0 He))).
+  rewrite Hl, Hf. unfold single_doc. rewrite Hw. eexists. split; [reflexivity|]. now rewrite app_assoc.
+Qed.
+
+Theorem untouched_unchanged md c F ops fs0 :
+  m_err (run md c F ops fs0) = false ->
+  forall t, touched t ops = false -> final md c F ops fs0 t = fs0 t.
+Proof.
+  intros He t Ht.
+  unfold final.
+  pose proof (run_book md c F ops fs0 He) as B.
+  rewrite close_all_view by (apply (b_nodup _ _ _ _ B)).
+  assert (Hl : lookup t (m_open (run md c F ops fs0)) = None).
+  { apply lookup_none. intros Hin. assert (In t (targets_of ops)) by (apply (b_cov _ _ _ _ B); now left).
+    apply touched_iff in H. congruence. }
+  rewrite Hl, app_nil_r. clear Hl B.
+  induction ops as [|o ops IH] using rev_ind; [reflexivity|].
+  rewrite run_snoc in *. pose proof (err_monotone _ _ _ _ _ He) as He0. destruct o as [t' e].
+  rewrite touched_snoc in Ht. apply orb_false_iff in Ht. destruct Ht as [Ht Hb]. apply beqb_neq in Hb.
+  specialize (IH He0 Ht). pose proof (run_book md c F ops fs0 He0) as B.
+  set (m := run md c F ops fs0) in *.
+  pose proof (acquire_fs md c F ops t' m B) as Hacq.
+  assert (Hnl : lookup t (m_open m) = None).
+  { apply lookup_none. intros Hin. assert (In t (targets_of ops)) by (apply (b_cov _ _ _ _ B); now left).
+    apply touched_iff in H. congruence. }
+  (* t is not open, so make_room cannot have closed it: its file is unchanged *)
+  assert (Hfs : forall ws rest ev fs, acquire md c F t' m = (ws, rest, ev, fs) -> fs t = m_fs m t).
+  { intros ws rest ev fs Ea. unfold acquire in Ea.
+    assert (H1 : m_fs (make_room md c F t' m) t = m_fs m t).
+    { destruct (make_room_view md c F t' m) as [E|(rest' & tl & wtl & Eo & El & Ep & Ec & E)]; rewrite E; [reflexivity|].
+      cbn. apply upd_other. intros ->. apply lookup_none in Hnl. apply Hnl. rewrite Eo, names_app. apply in_or_app. right. now left. }
+    destruct (lookup t' (m_open (make_room md c F t' m))); inversion Ea; subst; [exact H1|].
+    destruct (is_append md || mem t' (m_evicted (make_room md c F t' m))); [exact H1|]. now rewrite upd_other. }
+  destruct e as [r|s]; cbn in He |- *; unfold write_rec, write_str in *; rewrite He0 in *.
+  - destruct (acquire md c F t' m) as [[[ws rest] ev] fs] eqn:Ea.
+    destruct (w_rec F ws r) as [[its ws']|]; [|cbn in He; discriminate]. cbn. rewrite upd_other by exact Hb.
+    rewrite (Hfs _ _ _ _ eq_refl). exact IH.
+  - destruct (acquire md c F t' m) as [[[ws rest] ev] fs] eqn:Ea. cbn. rewrite upd_other by exact Hb.
+    rewrite (Hfs _ _ _ _ eq_refl). exact IH.
+Qed.
+
+(* ================================================================ part 4: shape of the reference document *)
+Definition has_rec (evs : list event) : bool := match recs_of_events evs with [] => false | _ => true end.
+
+Lemma count_app p a b : count p (a ++ b) = count p a + count p b.
+Proof. unfold count. now rewrite filter_app, app_length. Qed.
+
+Lemma wrun_started_counts F fk evs its w :
+  wrun F (WStarted fk) evs = Some (its, w) ->
+  count is_header its = 0 /\ count is_open its = 0 /\ count is_close its = 0 /\ exists fk', w = WStarted fk'.
+Proof.
+  revert its w. induction evs as [|[r|s] evs IH]; cbn; intros its w H.
+  - inversion H; subst. cbn. eauto.
+  - destruct (w_rec F (WStarted fk) r) as [[i1 w1]|] eqn:E1; [|discriminate].
+    destruct (wrun F w1 evs) as [[i2 w2]|] eqn:E2; [|discriminate]. inversion H; subst.
+    assert (Hw1 : w1 = WStarted fk /\ count is_header i1 = 0 /\ count is_open i1 = 0 /\ count is_close i1 = 0).
+    { destruct F; cbn in E1; try (inversion E1; subst; cbn; auto; fail).
+      destruct (prefix_agree fk (keys r)); inversion E1; subst; cbn; auto. }
+    destruct Hw1 as (-> & h1 & h2 & h3). destruct (IH _ _ E2) as (g1 & g2 & g3 & g4).
+    rewrite !count_app. repeat split; try lia. exact g4.
+  - destruct (wrun F (WStarted fk) evs) as [[i2 w2]|] eqn:E2; [|discriminate]. inversion H; subst.
+    destruct (IH _ _ eq_refl) as (g1 & g2 & g3 & g4). unfold count in *. cbn. auto.
+Qed.
+
+(* one header (CSV) / one bracket pair (JSON) iff at least one record, nothing of the kind otherwise *)
+Theorem single_doc_shape F evs d :
+  single_doc F evs = Some d ->
+  let one := if has_rec evs then 1 else 0 in
+  count is_header d = (match F with FCsv => one | _ => 0 end) /\
+  count is_open d = (match F with FJson => one | _ => 0 end) /\
+  count is_close d = (match F with FJson => one | _ => 0 end).
+Proof.
+  unfold single_doc. destruct (wrun F WFresh evs) as [[its w]|] eqn:E; [|discriminate].
+  intros H. inversion H; subst. clear H. cbn zeta.
+  revert its w E. induction evs as [|[r|s] evs IH]; cbn; intros its w E.
+  - inversion E; subst. destruct F; cbn; auto.
+  - destruct (w_rec F WFresh r) as [[i1 w1]|] eqn:E1; [|discriminate].
+    destruct (wrun F w1 evs) as [[i2 w2]|] eqn:E2; [|discriminate]. inversion E; subst.
+    assert (H1 : w1 = WStarted (keys r)) by (destruct F; cbn in E1; inversion E1; reflexivity).
+    subst w1. destruct (wrun_started_counts _ _ _ _ _ E2) as (g1 & g2 & g3 & fk' & ->).
+    unfold has_rec. cbn [recs_of_events]. rewrite !count_app, g1, g2, g3.
+    destruct F; cbn in E1; inversion E1; subst; cbn; auto.
+  - destruct (wrun F WFresh evs) as [[i2 w2]|] eqn:E2; [|discriminate]. inversion E; subst.
+    specialize (IH _ _ eq_refl). unfold has_rec in *. cbn [recs_of_events]. unfold count in *. cbn. exact IH.
+Qed.
+
+(* ================================================================ part 5: beyond the capacity, header / bracket formats:
+   the faithful model writes a second header / bracket pair when an evicted target is used again *)
+Definition wname (i : nat) : target := [ascii_of_nat (65 + i / 26); ascii_of_nat (97 + i mod 26)].
+Definition wrec (i : nat) : record := [(B "a", [ascii_of_nat (48 + i mod 10)]); (B "b", B "x")].
+(* c+1 targets once each, then the first one again (it was evicted when the last one was opened) *)
+Definition witness_ops (c : nat) : list op :=
+  map (fun i => (wname i, ERec (wrec i))) (seq 0 (S c)) ++ [(wname 0, ERec (wrec 1))].
+Definition empty_store : fstore := fun _ => [].
+
+Lemma witness_csv_256 :
+  let ops := witness_ops 256 in let t := wname 0 in
+  len (distinct (targets_of ops)) = 257 /\
+  m_err (run MWrite 256 FCsv ops empty_store) = false /\
+  exists d, single_doc FCsv (events_of t ops) = Some d /\
+            final MWrite 256 FCsv ops empty_store t <> d /\
+            count is_header d = 1 /\ count is_header (final MWrite 256 FCsv ops empty_store t) = 2.
+Proof.
+  cbn zeta. split; [vm_compute; reflexivity|]. split; [vm_compute; reflexivity|].
+  eexists. split; [vm_compute; reflexivity|]. split; [vm_compute; discriminate|]. split; vm_compute; reflexivity.
+Qed.
+
+Lemma witness_json_256 :
+  let ops := witness_ops 256 in let t := wname 0 in
+  m_err (run MWrite 256 FJson ops empty_store) = false /\
+  exists d, single_doc FJson (events_of t ops) = Some d /\
+            final MWrite 256 FJson ops empty_store t <> d /\
+            count is_open d = 1 /\ count is_close d = 1 /\
+            count is_open (final MWrite 256 FJson ops empty_store t) = 2 /\
+            count is_close (final MWrite 256 FJson ops empty_store t) = 2.
+Proof.
+  cbn zeta. split; [vm_compute; reflexivity|].
+  eexists. split; [vm_compute; reflexivity|]. split; [vm_compute; discriminate|]. repeat split; vm_compute; reflexivity.
+Qed.
+
+(* the smallest instance, readable: capacity 1, targets Aa Ab Aa *)
+Lemma witness_csv_small :
+  render FCsv (final MWrite 1 FCsv (witness_ops 1) empty_store (wname 0)) = B "a,b
+0,x
+a,b
+1,x
+".
+Proof. vm_compute. reflexivity. Qed.
+
+(* ================================================================ part 6: tee in a chain *)
+Lemma tee_first_delivers_all rest cut recs : delivered (VTee :: rest) cut recs = recs.
+Proof. reflexivity. Qed.
+
+Theorem tee_then_head n rest cut recs :
+  run_chain (VTee :: VHead n :: rest) cut recs =
+  (recs :: fst (chain rest (firstn n recs)), snd (chain rest (firstn n recs))).
+Proof.
+  unfold run_chain. rewrite tee_first_delivers_all. cbn. destruct (chain rest (firstn n recs)); reflexivity.
+Qed.
+
+(* without the tee, the reader is allowed to stop early: this is what the tee's special case prevents *)
+Lemma head_alone_may_stop n cut recs : run_chain [VHead n] cut recs = ([], firstn n (firstn cut recs)).
+Proof. reflexivity. Qed.
